@@ -48,6 +48,21 @@ CovNonZero(M, y) == LET n == Len(M)
                         yv == [i \in 1..n |-> yc[i][1]]
                     IN \E j \in 1..Len(M[1]) : ERDotCol(Xc, j, yv, n) # 0
 
+\* Number of latent variables PLS1 can extract = dimension of the Krylov space span{s, As, A^2 s, ...} with A = X_c'X_c and
+\* s = X_c'y_c (denominators cleared: everything is computed from n*X_c and n*y_c).  Every Krylov vector is divided by the
+\* gcd of its entries (same direction, small numbers) before the next multiplication.
+MatVec(A, v) == [i \in 1..Len(A) |-> ERDotCol(TransposeM(A), i, v, Len(v))]
+Gram(Xc) == LET p == Len(Xc[1]) IN [i \in 1..p |-> [j \in 1..p |-> ERDotCol(Xc, i, [r \in 1..Len(Xc) |-> Xc[r][j]], Len(Xc))]]
+RECURSIVE KrylovRows(_, _, _)
+KrylovRows(A, v, k) == IF k = 0 THEN <<>> ELSE <<v>> \o KrylovRows(A, ERPrim(MatVec(A, v)), k - 1)
+KrylovRank(M, y) == LET n == Len(M)
+                        Xc == CenterN(M)
+                        yc == CenterN([i \in 1..n |-> <<y[i]>>])
+                        yv == [i \in 1..n |-> yc[i][1]]
+                        p == Len(M[1])
+                        s == ERPrim([j \in 1..p |-> ERDotCol(Xc, j, yv, n)])
+                    IN IF \A j \in 1..p : s[j] = 0 THEN 0 ELSE Rank(KrylovRows(Gram(Xc), s, p))
+
 \* sanity theorems (checked by TLC on every generated matrix, see NipalsGen)
 RankSane(M) == LET r == Rank(M) IN
   /\ r \in 0..(IF Len(M) < Len(M[1]) THEN Len(M) ELSE Len(M[1]))
